@@ -121,6 +121,23 @@ func convCoverage(c *core.Check, pk *packages.Package, label string) {
 	info := pk.TypesInfo
 	for _, fd := range core.AllFuncDecls(pk) {
 		fname := core.FuncName(fd)
+		// nil-ness rule: a slice helper whose result becomes Field.Names must map an empty list to nil,
+		// because both printers decide `func() T` vs `func() (T)` by testing Field.Names == nil
+		if feedsFieldNames(info, pk, fd) {
+			guard := false
+			ast.Inspect(fd.Body, func(n ast.Node) bool {
+				if ifs, ok := n.(*ast.IfStmt); ok && len(ifs.Body.List) == 1 {
+					if r, ok := ifs.Body.List[0].(*ast.ReturnStmt); ok && len(r.Results) == 1 && core.ExprStr(r.Results[0]) == "nil" {
+						cs := strings.ReplaceAll(core.ExprStr(ifs.Cond), " ", "")
+						if strings.HasSuffix(cs, "==0") || strings.HasSuffix(cs, "==nil") {
+							guard = true
+						}
+					}
+				}
+				return true
+			})
+			c.Decide(guard, "conv-nilness", label+"."+fname, fd.Pos(), "an empty name list stays nil", "this helper turns an empty (or nil) name list into an empty NON-nil slice and its result is stored in Field.Names: go/printer and the XGo printer test Names == nil to print a single anonymous result without parentheses, so `func() error` comes back as `func() (error)`")
+		}
 		// identity rule: a converter never replaces the node it was asked to convert by one of its children
 		if fd.Type.Params != nil && fd.Type.Params.NumFields() >= 1 {
 			if src := paramObj(fd, info, 0); src != nil {
@@ -205,6 +222,24 @@ func convCoverage(c *core.Check, pk *packages.Package, label string) {
 				if !set {
 					c.Bad("conv-field", key, cl.Pos(), "field exists in both "+tn.Obj().Name()+" structs but is not copied by the converter: it is lost in a Go→XGo→Go round trip (header printed differently)")
 					continue
+				}
+				// operator/kind tokens are converted by plain numeric cast (their numbering agreement is checked separately);
+				// anything else (a mapping helper) can lose tokens the rule cannot enumerate
+				if nt, ok := types.Unalias(f.Type()).(*types.Named); ok && nt.Obj().Name() == "Token" {
+					plain := false
+					if call, ok := ast.Unparen(val).(*ast.CallExpr); ok && len(call.Args) == 1 {
+						if tv, ok := info.Types[call.Fun]; ok && tv.IsType() {
+							plain = true
+						}
+					}
+					if _, ok := ast.Unparen(val).(*ast.SelectorExpr); ok {
+						plain = true
+					}
+					if !plain {
+						c.Undecided("conv-token-cast", key, val.Pos(), "the token is not converted by a plain cast Token(src."+f.Name()+") but through a helper: the checker cannot establish that every token shared by go/token and xgo/token (e.g. TILDE, which lies after xgo's additional_beg marker) survives the mapping")
+						continue
+					}
+					c.Ok("conv-token-cast", key, val.Pos(), "plain cast")
 				}
 				if !mentionsSrcField(info, val, src, f.Name()) {
 					if why, ok := convOmissions[f.Name()]; ok {
@@ -310,4 +345,33 @@ func filledFrom(info *types.Info, fd *ast.FuncDecl, local types.Object, src type
 		return true
 	})
 	return ok
+}
+
+// feedsFieldNames: fd's result is used as the value of key Names in a Field literal of this package.
+func feedsFieldNames(info *types.Info, pk *packages.Package, fd *ast.FuncDecl) bool {
+	obj := info.Defs[fd.Name]
+	found := false
+	for _, f := range pk.Syntax {
+		ast.Inspect(f, func(n ast.Node) bool {
+			cl, ok := n.(*ast.CompositeLit)
+			if !ok {
+				return true
+			}
+			tn := namedOf(info.TypeOf(cl))
+			if tn == nil || tn.Obj().Name() != "Field" {
+				return true
+			}
+			for _, el := range cl.Elts {
+				if kv, ok := el.(*ast.KeyValueExpr); ok {
+					if k, ok := kv.Key.(*ast.Ident); ok && k.Name == "Names" {
+						if call, ok := ast.Unparen(kv.Value).(*ast.CallExpr); ok && calleeObj(info, call) == obj && obj != nil {
+							found = true
+						}
+					}
+				}
+			}
+			return true
+		})
+	}
+	return found
 }
